@@ -151,6 +151,7 @@ def regen(ctx):
             if rc != 0:
                 raise RuntimeError("extractor build failed:\n" + out)
         gen_dir = os.path.join(LEAN, "KM", "Gen")
+        os.makedirs(gen_dir, exist_ok=True)
         tmp = os.path.join(ctx.work, "gen")
         os.makedirs(tmp, exist_ok=True)
         rc, out = sh([EXTRACT_BIN, "-repo", REPO, "-out", tmp])
